@@ -79,7 +79,7 @@ def simulate(chk, world, max_polls=40, loop_bound=14, sleep_polls=1):
     if len(run_sc) != 1:
         raise Inconclusive('Executor::run_scenario: %d' % len(run_sc))
     rp = {n: int(p[1:]) - 1 for n, p in run_sc[0].debug.items() if p.startswith('_') and p[1:].isdigit() and int(p[1:]) <= len(run_sc[0].params)}
-    next_try = prog.find('basic.rs:125:1: 125:18>::next_try')
+    next_try = common.find_method(prog, 'RetryOptions', 'next_try')
     insert_retried = sched._find_method(prog, 'Features', 'insert_retried_scenario')
     sc_finished = [b for (st, m), lst in prog.by_method.items() if st == 'Executor' and m == 'scenario_finished' for tr, b in lst][0]
     EX = prog.tables.struct_fields('runner::basic::Executor<W>')
@@ -91,7 +91,8 @@ def simulate(chk, world, max_polls=40, loop_bound=14, sleep_polls=1):
         failv[s.name] = [z3.Bool('fail(%s,%d)' % (s.name, k)) for k in range(n_att)]
 
     def scen_future(ex_, body, args):
-        executor, scn, retries, ty = args[rp['self']], args[rp['scenario']], args[rp['retries']], args[rp['scenario_ty']]
+        executor, scn, retries = args[rp['self']], args[rp['scenario']], args[rp['retries']]
+        ty = args[rp['scenario_ty']] if 'scenario_ty' in rp else None        # (a change may stop passing the type along)
         feat, rule, sid = args[rp['feature']], args[rp['rule']], args[rp['id']]
         s = by_pid.get(str(z3.simplify(M.pid(ex_, scn))))
         if s is None:
@@ -112,9 +113,9 @@ def simulate(chk, world, max_polls=40, loop_bound=14, sleep_polls=1):
             cur = z3.simplify(ex_.materialize(ex_.field_of(rr, None, six.R['current'], 'usize'), 'usize'))
             left = z3.simplify(ex_.materialize(ex_.field_of(rr, None, six.R['left'], 'usize'), 'usize'))
             attempt = cur.as_long()
-            M.log(ex_, 'dispatch', sc=s.name, attempt=attempt, left=left.as_long(), ty=z3.simplify(M.discr(ex_, ty)).as_long())
+            M.log(ex_, 'dispatch', sc=s.name, attempt=attempt, left=left.as_long(), ty=z3.simplify(M.discr(ex_, ty)).as_long() if ty is not None else None)
         else:
-            M.log(ex_, 'dispatch', sc=s.name, attempt=0, left=None, ty=z3.simplify(M.discr(ex_, ty)).as_long())
+            M.log(ex_, 'dispatch', sc=s.name, attempt=0, left=None, ty=z3.simplify(M.discr(ex_, ty)).as_long() if ty is not None else None)
         dur = s.durs[min(attempt, len(s.durs) - 1)]
 
         def poll(ex2, cell, path, v, cx, dty):
@@ -138,7 +139,17 @@ def simulate(chk, world, max_polls=40, loop_bound=14, sleep_polls=1):
                 if ex2.branch(M.discr(ex2, nt) == bv(1)):
                     retried = True
                     storage = Ref(*(lambda c_p: (c_p[0], c_p[1] + (('f', None, EX.index('storage'), 'Features'),)))(ex2.deref(executor)))
-                    co = ex2.call_body(insert_retried, [storage, feat, rule, scn, ty, nt])
+                    have = {'self': storage, 'feature': feat, 'rule': rule, 'scenario': scn, 'scenario_ty': ty, 'retries': nt, 'next_try': nt}
+                    ir_args = []
+                    for i_, (loc_, pty_) in enumerate(insert_retried.params):
+                        pn = [n_ for n_, p_ in insert_retried.debug.items() if p_ == '_%d' % (i_ + 1)]
+                        if not pn or pn[0] not in have or have[pn[0]] is None:
+                            raise Inconclusive('insert_retried_scenario parameter %s' % (pn or [i_],))
+                        val_ = have[pn[0]]
+                        if pn[0] in ('retries', 'next_try') and not pty_.strip().startswith(('Option<', 'std::option::Option<')):
+                            val_ = ex2.field_of(nt, 1, 0, 'RetryOptions')       # the callee takes the options themselves
+                        ir_args.append(val_)
+                    co = ex2.call_body(insert_retried, ir_args)
                     from checks.fail_on_skipped import poll_to_completion
                     poll_to_completion(ex2, M, co, 3)
             ex2.env['running'].remove(s.name)
@@ -616,13 +627,14 @@ def check_framing(tl, spec):
 
 # ------------------------------------------------------------------------------------------------ native replay
 
-def world_script(world, res, scale=1):
+def world_script(world, res, scale=1, custom_classifier=False):
     """runner-mode replay script for a world and the outcomes of one simulated path"""
     fails = {}
     for e in res['events']:
         if e[0] == 'finish':
             fails.setdefault(e[1], {})[e[2]] = e[3]
-    lines = ['builder max_concurrent=%s%s' % ('none' if world.limit is None else world.limit, ' fail_fast=1' if world.fail_fast else '')]
+    lines = ['builder max_concurrent=%s%s%s' % ('none' if world.limit is None else world.limit, ' fail_fast=1' if world.fail_fast else '',
+                                             ' which=exclusive' if custom_classifier else '')]
     feats = sorted(set(s.feature for s in world.scens))
     beh = []
     late_of = dict((fi, late) for late, fi in (world.parser or []))
@@ -638,7 +650,7 @@ def world_script(world, res, scale=1):
         def emit(s, ind):
             tags = []
             if s.ty == 'S':
-                tags.append('@serial')
+                tags.append('@exclusive' if custom_classifier else '@serial')
             if s.budget is not None:
                 tags.append('@retry(%d)%s' % (s.budget, '.after(300ms)' if s.delay else ''))
             if tags:
@@ -758,9 +770,11 @@ def confirm_native(chk, o, prop, name):
     d = os.path.join(common.EVID, 'replay')
     os.makedirs(d, exist_ok=True)
     tried = []
-    for scale in (1, 2, 5, 25):
-        path = os.path.join(d, '%s-execute-%s-x%d.script' % (prop, name.replace('<', 'le').replace('=', ''), scale))
-        r, out = replay.run_script('\n'.join(['mode runner'] + world_script(world, res, scale)) + '\n', path, timeout=60)
+    has_serial = any(s_.ty == 'S' for s_ in world.scens)
+    variants = [(sc_, False) for sc_ in (1, 2, 5, 25)] + ([(sc_, True) for sc_ in (1, 5)] if has_serial else [])
+    for scale, custom in variants:
+        path = os.path.join(d, '%s-execute-%s-x%d%s.script' % (prop, name.replace('<', 'le').replace('=', ''), scale, '-custom-classifier' if custom else ''))
+        r, out = replay.run_script('\n'.join(['mode runner'] + world_script(world, res, scale, custom)) + '\n', path, timeout=60)
         chk.replays += 1
         if r is None:
             tried.append('x%d: driver failed' % scale)
